@@ -48,6 +48,7 @@ struct Dumper {
     vdone: HashSet<(String, usize)>,
     nbodies: usize,
     next: usize,
+    iter_next: Option<rustc_public::ty::FnDef>,
 }
 
 fn iid(i: &Instance) -> String {
@@ -382,7 +383,19 @@ impl Dumper {
                 };
             }
         }
+        // `<X as Trait>::method`: decided by the implementing type X; by the trait only for blanket impls
+        if let Some((x, tr)) = split_qualified(&dname) {
+            let x = x.trim_start_matches('&').trim_start_matches("'a ").trim_start_matches("mut ").trim_start_matches('(').trim_start_matches("dyn ");
+            let generic = x.len() <= 2 || x.chars().next().map(|c| c.is_uppercase()).unwrap_or(false) && !x.contains("::");
+            if generic {
+                return self.starts_stopped(tr);
+            }
+            return self.starts_stopped(x);
+        }
         self.is_stopped(&dname)
+    }
+    fn starts_stopped(&self, s: &str) -> bool {
+        self.stop.iter().any(|p| s.starts_with(p.as_str()))
     }
 
     fn dump_instance(&mut self, inst: Instance) {
@@ -410,6 +423,23 @@ impl Dumper {
                 for g in &args.0 {
                     if let GenericArgKind::Type(t) = g {
                         self.ty(*t);
+                    }
+                }
+                // a stopped consumer of an iterator (collect / extend / from_iter): the model drives the
+                // iterator's own `next`, which nothing else references
+                if name.contains("FromIterator") || name.contains("::extend") || name.contains("Extend<") {
+                    if let Some(next) = self.iter_next {
+                        for g in &args.0 {
+                            if let GenericArgKind::Type(t) = g {
+                                let looks_iter = format!("{}", t).contains("iter::") || format!("{}", t).contains("Iter");
+                                if looks_iter {
+                                    let ga = GenericArgs(vec![GenericArgKind::Type(*t)]);
+                                    if let Ok(i) = Instance::resolve(next, &ga) {
+                                        self.inst(i);
+                                    }
+                                }
+                            }
+                        }
                     }
                 }
                 let intr = inst.intrinsic_name();
@@ -461,6 +491,49 @@ impl Dumper {
             }
         }
     }
+}
+
+fn find_iterator_next() -> Option<rustc_public::ty::FnDef> {
+    for t in rustc_public::all_trait_decls() {
+        let n = t.name();
+        if n == "std::iter::Iterator" || n == "core::iter::Iterator" || n == "core::iter::traits::iterator::Iterator" {
+            for it in t.associated_items() {
+                if let rustc_public::ty::AssocKind::Fn { name, .. } = &it.kind {
+                    if name == "next" {
+                        return Some(rustc_public::ty::FnDef(it.def_id.def_id()));
+                    }
+                }
+            }
+        }
+    }
+    None
+}
+
+/// "<X as Y>::rest" -> (X, Y) split at the top-level " as "
+fn split_qualified(name: &str) -> Option<(&str, &str)> {
+    if !name.starts_with('<') {
+        return None;
+    }
+    let b = name.as_bytes();
+    let mut depth = 0i32;
+    let mut i = 0;
+    let mut as_at = None;
+    while i < b.len() {
+        match b[i] {
+            b'<' => depth += 1,
+            b'>' => {
+                depth -= 1;
+                if depth == 0 {
+                    let a = as_at?;
+                    return Some((&name[1..a], &name[a + 4..i]));
+                }
+            }
+            b' ' if depth == 1 && as_at.is_none() && name[i..].starts_with(" as ") => as_at = Some(i),
+            _ => {}
+        }
+        i += 1;
+    }
+    None
 }
 
 struct BodyVisitor<'a> {
@@ -569,7 +642,7 @@ fn main() {
             stop: stop.clone(),
             seen_inst: HashSet::new(), q: VecDeque::new(), seen_ty: HashSet::new(), tyq: VecDeque::new(),
             seen_alloc: HashSet::new(), allocq: VecDeque::new(), seen_static: HashSet::new(),
-            unsize: HashSet::new(), vcalls: HashMap::new(), vdone: HashSet::new(), nbodies: 0, next: 0,
+            unsize: HashSet::new(), vcalls: HashMap::new(), vdone: HashSet::new(), nbodies: 0, next: 0, iter_next: find_iterator_next(),
         };
         let _ = d.next;
         for item in rustc_public::all_local_items() {
